@@ -148,35 +148,38 @@ def run(case, ctx):
             # multiset match with ambiguity
             remaining = list(labs)
             ambiguous = []
-            ok = True
+            missing = []
             for e in exp:
                 if len(e) == 1:
                     (x,) = tuple(e)
                     if x in remaining:
                         remaining.remove(x)
                     else:
-                        ok = False
-                        break
+                        missing.append(x)
                 else:
                     ambiguous.append(e)
-            if ok:
-                for e in ambiguous:
-                    hit = next((x for x in remaining if x in e), "<none>")
-                    if hit == "<none>":
-                        ok = False
-                        break
+            for e in ambiguous:
+                hit = next((x for x in remaining if x in e), "<none>")
+                if hit == "<none>":
+                    missing.append(e)
+                else:
                     remaining.remove(hit)
+            ok = not missing
             if (not ok or remaining) and off:
+                # the recorded finding O1: after a region was closed over a still-paused body and the body resumed, CPUs show
+                # the task-body subsystem label where their task type is due -- and nothing else is wrong
                 body = W.TASK_BODY_LABEL[model]
-                stale = body in labs and any(len(e) == 1 and next(iter(e)) not in labs and next(iter(e)) in set(
-                    lab for l in w.looms for p in l.procs for lab in p.types[model].values()) for e in exp)
+                types = set(lab for l in w.looms for p in l.procs for lab in p.types[model].values()) | \
+                    {x for x in missing if isinstance(x, str) and x.startswith("(unlabeled task type")}
+                stale = bool(remaining) and all(x == body for x in remaining) and len(missing) == len(remaining) and \
+                    all(isinstance(x, str) and x in types for x in missing)
                 if stale:
                     return result(False, "breakdown-stale-after-offgrammar-resume", "breakdown-stale-after-offgrammar-resume",
                                   "after a region was closed over a still-paused task body (a history the runtimes do not produce) and the body "
                                   "resumed, the breakdown at t=%d shows %r where the per-CPU values are %r: the task-body subsystem label is "
                                   "shown instead of the task type" % (t, labs, [sorted(map(str, e)) for e in exp]), **info)
-                info["probes"] = dict(info.get("probes", {}), **{"off-grammar mismatch of another shape (not compared further)": 1})
-                break
+                # any other mismatch is reported like everywhere else: the statement defines the value here too
+                # (body subsystem on top, no task type -> the subsystem label)
             if not ok or remaining:
                 return result(False, "breakdown-multiset", None,
                               "at t=%d breakdown rows show %r but per-CPU reference values are %r"
@@ -185,6 +188,9 @@ def run(case, ctx):
         return None
 
     def on_record(mach):
+        # several events at the same instant: what holds "at that instant" is what the last of them leaves
+        if snaps and snaps[-1][0] == mach.now:
+            snaps.pop()
         snaps.append((mach.now, expected_values(mach.w, mach, model)))
 
     r = mgen.run_machine_case(case, ctx, keys_filter=lambda k, t: False, post=post, on_record=on_record)
